@@ -86,12 +86,15 @@ def gen_case(rng, tier):
                'unfit': rng.choice(['op1 256', 'op1 -129', 'op2 65536', 'op4 $1000000', 'op3 300, 1']),
                # an 8-bit unaligned immediate behind a 4-bit opcode (12-bit instruction), also as the second step of a macro
                'unfit-subbyte': rng.choice(['ldn 256', 'ldn -129', 'ldn2 255', 'ld4 16', 'ld4 -9', 'ld4 200', 'ld4 $FF',
-                                            'ld4 -%d' % rng.randint(9, 15), 'ld4 0 - %d' % rng.randint(9, 15), 'ld4 -16', 'ld4 -17']),
+                                            'ld4 -%d' % rng.randint(9, 15), 'ld4 0 - %d' % rng.randint(9, 15), 'ld4 -16', 'ld4 -17',
+                                            'ld4 -%d' % rng.randint(9, 15), 'ld4 -15', 'ld4 -9']),
                # text that is no expression where a value is expected
                'bad-expression': rng.choice(['op1 1 +! 2', 'op2 3 -? 4', 'op1 2 *~ 1', 'op3 1 +` 1, 2', 'op1 1 +! 2', '.byte 1 ! 2',
                                              '.2byte 5 }', '.byte 1 +', 'op1 (1', '.fill 2 ! 3, 1'])}[fault]
         lines = text.split('\n')
-        lines.insert(rng.randrange(len(lines)), ins)
+        # at the end of the program the faulty statement disturbs nothing else (no shifted addresses, no split local region),
+        # so it is the only reason for a rejection
+        lines.insert(len(lines) if rng.random() < 0.5 else rng.randrange(len(lines)), ins)
         if rng.random() < 0.3:
             # the faulty statement is the letter-case twin of a VALID statement that stands earlier in the program: mnemonics
             # and registers ignore case, labels and the H suffix of hexadecimal literals do not
